@@ -23,6 +23,9 @@
 #include "context.h"
 #include "parser.h"
 
+#include <limits>
+#include <stdexcept>
+
 namespace bloc
 {
 
@@ -64,7 +67,19 @@ ItemExpression * ItemExpression::parse(Parser& p, Context& ctx, Expression * exp
   TokenPtr t = p.pop();
   if (t->code != TOKEN_INTEGER)
     throw ParseError(EXC_PARSE_INV_EXPRESSION, t);
-  unsigned item_no = (unsigned)std::stoul(t->text, nullptr, 10);
+  unsigned item_no = 0;
+  try
+  {
+    /* the item number must fit the type of the index */
+    unsigned long n = std::stoul(t->text, nullptr, 10);
+    if (n > std::numeric_limits<unsigned>::max())
+      throw std::out_of_range(t->text);
+    item_no = (unsigned)n;
+  }
+  catch (std::out_of_range& e)
+  {
+    throw ParseError(EXC_PARSE_OUT_OF_INDICE, t->text.c_str(), t);
+  }
   switch (exp_type.major())
   {
   case Type::NO_TYPE:
